@@ -301,14 +301,14 @@ pub(crate) fn c06_rabin_step_hint0() {
     step_check::<0, 76, 76, 8, false>(64, 64, 72, 1, 0, 0, 1);
 }
 
-//@ harness: c06_rabin_small_params_a c06_rabin_small_params_b c06_rabin_small_params_c c06_rabin_small_params_d
+//@ harness: c06_rabin_small_params_a c06_rabin_small_params_b c06_rabin_small_params_c c06_rabin_small_params_d c06_rabin_small_params_e
 //@ prop: C06 C18
 //@ tier: quick
 //@ timeout: 1200
 //@ mem: 16
 //@ unwindset: calculate_out_table#0=4; calculate_out_table#1=258; calculate_mod_table#0=258; modulo#0=64
 //@ kernel: chunker::rabin::ChunkIter::next from a valid iterator state with small accepted parameters, check_rabin_params
-//@ bound: accepted parameter triples (avg,min,max) = (64,16,72) with 20 unread look-ahead bytes + 8 stream bytes [minimum below the 64-byte window and below the look-ahead fill]; (32,8,40) with 3 look-ahead + 50 stream bytes [minimum below the window, plenty of data]; (64,64,72) with 20 + 8 bytes [final short chunk]; (64,0,72) with 3 + 10 bytes [minimum size 0, if accepted]; all bytes symbolic; full reads; one call of next(); the Rabin64 instance has a 2-byte window (hash values are not the subject here, ChunkIter::next's own arithmetic is)
+//@ bound: accepted parameter triples (avg,min,max) = (64,16,72) with 20 unread look-ahead bytes + 8 stream bytes [minimum below the 64-byte window and below the look-ahead fill]; (32,8,40) with 3 look-ahead + 50 stream bytes [minimum below the window, plenty of data]; (64,64,72) with 20 + 8 bytes [final short chunk]; (64,0,72) with 3 + 10 bytes [minimum size 0, if accepted]; (64,64,72) with 20 + 60 bytes [look-ahead bytes count towards the minimum: more data than max size available]; all bytes symbolic; full reads; one call of next(); the Rabin64 instance has a 2-byte window (hash values are not the subject here, ChunkIter::next's own arithmetic is)
 //@ oracle: no panic (no underflow, no out-of-range slice); the chunk has 1..=max bytes, consists of exactly the next unread bytes, and is >= min unless the stream ended; the rest stays available (look-ahead + reader)
 //@ stub: std::io::Read::read_to_end -> contract model
 //@ assume: parameters are accepted by check_rabin_params (asserted)
@@ -322,11 +322,12 @@ macro_rules! small_params_instance {
         pub(crate) fn $name() { small_params_check::<$look, $n>($size, $min, $max); }
     };
 }
-//@ instance: c06_rabin_small_params_a c06_rabin_small_params_b c06_rabin_small_params_c c06_rabin_small_params_d
+//@ instance: c06_rabin_small_params_a c06_rabin_small_params_b c06_rabin_small_params_c c06_rabin_small_params_d c06_rabin_small_params_e
 small_params_instance!(c06_rabin_small_params_a, 64, 16, 72, 20, 8);
 small_params_instance!(c06_rabin_small_params_b, 32, 8, 40, 3, 50);
 small_params_instance!(c06_rabin_small_params_c, 64, 64, 72, 20, 8);
 small_params_instance!(c06_rabin_small_params_d, 64, 0, 72, 3, 10);
+small_params_instance!(c06_rabin_small_params_e, 64, 64, 72, 20, 60);
 
 fn small_params_check<const UNREAD: usize, const N: usize>(size: usize, min: usize, max: usize) {
     let ok = check_rabin_params(size, min, max);
@@ -335,7 +336,7 @@ fn small_params_check<const UNREAD: usize, const N: usize>(size: usize, min: usi
     if !accepted {
         // a refused triple is fine ("accepted configurations work"); the instances a-c must stay accepted
         assert!(min == 0, "a parameter triple this harness relies on is no longer accepted");
-        kani::cover!(true, "a chunk was produced");
+        small_params_witness();
         return;
     }
     let data: [u8; N] = kani::any();
@@ -365,13 +366,17 @@ fn small_params_check<const UNREAD: usize, const N: usize>(size: usize, min: usi
             assert!(it.pos <= it.buf.len());
             let held = it.buf.len() - it.pos;
             assert!(held + (it.reader.len - it.reader.pos) == total - c);
-            kani::cover!(true, "a chunk was produced");
+            small_params_witness();
             std::mem::forget(v);
         }
         Some(Err(e)) => { std::mem::forget(e); assert!(false); }
     }
     std::mem::forget(it);
 }
+
+// one cover site for both ends of small_params_check (a cover in the branch an instance never takes would read as vacuity)
+#[inline(never)]
+fn small_params_witness() { kani::cover!(true, "a chunk was produced, or the triple was refused"); }
 
 // ---------------------------------------------------------------------------
 // Relational step harness.  Proving that the table-driven rolling hash equals a directly computed polynomial
@@ -428,8 +433,10 @@ fn one_step<const UNREAD: usize, const LEN: usize, const TOTAL: usize>(rabin: Ra
 
 /// iterator A: UA look-ahead bytes + LA stream bytes, fresh hash state;
 /// iterator B: UB look-ahead bytes + LB stream bytes, hash state disturbed by two previously slid symbolic bytes, a short read
-fn pair_check<const UA: usize, const LA: usize, const UB: usize, const LB: usize, const TOTAL: usize, const SHORT_B: u8>(size: usize, min: usize, max: usize) {
-    let rabin = Rabin64::new_with_polynom(6, &POLY);
+fn pair_check<const UA: usize, const LA: usize, const UB: usize, const LB: usize, const TOTAL: usize, const SHORT_B: u8>(size: usize, min: usize, max: usize) { pair_check_w::<UA, LA, UB, LB, TOTAL, SHORT_B>(6, size, min, max) }
+
+fn pair_check_w<const UA: usize, const LA: usize, const UB: usize, const LB: usize, const TOTAL: usize, const SHORT_B: u8>(window_bits: u32, size: usize, min: usize, max: usize) {
+    let rabin = Rabin64::new_with_polynom(window_bits, &POLY);
     let all: [u8; TOTAL] = kani::any();
     let a = one_step::<UA, LA, TOTAL>(rabin.clone(), &all, size, min, max, 0, usize::MAX);
     let mut rb = rabin;
@@ -495,6 +502,24 @@ pub(crate) fn c06_rabin_pair_short_last() { pair_check::<0, 35, 5, 30, 35, 0>(64
 #[kani::stub(std::backtrace::Backtrace::capture, crate::error::verif_harness::stub_backtrace_capture)]
 #[kani::stub(std::io::Read::read_to_end, crate::chunker::rabin::verif_harness::ReadToEndModel::read_to_end)]
 pub(crate) fn c06_rabin_pair_frag() { pair_check::<0, 76, 5, 71, 76, 1>(64, 64, 72); }
+
+//@ harness: c06_rabin_pair_small
+//@ prop: C06
+//@ tier: quick
+//@ timeout: 1500
+//@ mem: 20
+//@ unwindset: calculate_out_table#0=4; calculate_out_table#1=258; calculate_mod_table#0=258; modulo#0=64
+//@ kernel: chunker::rabin::ChunkIter::{new,next}, rustic_cdc::Rabin64::{reset_and_prefill_window,slide} (2-byte window instance)
+//@ bound: polynomial 0x3DA3358B4DC173, Rabin64 with a 2-byte window, (avg,min,max)=(16,4,20); one call of next() on each of two iterators over the same 24 symbolic remaining bytes: A = empty look-ahead + 24 stream bytes, fresh hash state; B = 3 unread look-ahead bytes + 21 stream bytes, hash state disturbed by two previously slid symbolic bytes; full reads
+//@ oracle: per step as c06_rabin_pair_0_5 (non-empty, bounded, lossless, continuation, early cut only at a zero fingerprint); relational: both iterators cut the same remaining input at the same place (the cut does not depend on the look-ahead split nor on the hash state left by the previous chunk)
+//@ stub: std::io::Read::read_to_end -> contract model
+//@ assume: ChunkIter invariant between calls: pos <= buf.len()
+//@ outside: the production 64-byte window (c06_rabin_pair_*, experimental); equality with the mathematical fingerprint; other shapes
+#[kani::proof]
+#[kani::unwind(30)]
+#[kani::stub(std::backtrace::Backtrace::capture, crate::error::verif_harness::stub_backtrace_capture)]
+#[kani::stub(std::io::Read::read_to_end, crate::chunker::rabin::verif_harness::ReadToEndModel::read_to_end)]
+pub(crate) fn c06_rabin_pair_small() { pair_check_w::<0, 24, 3, 21, 24, 0>(1, 16, 4, 20); }
 
 // ---- first chunk, production window, std's real read_to_end, unbounded symbolic read fragmentation ----
 pub(crate) struct ProbeReader<const N: usize> { pub data: [u8; N], pub len: usize, pub pos: usize }
